@@ -305,6 +305,14 @@ def check_verdict(case, ctx):
         pff = {k: v for k, v in ff.items() if v is not None}
         if len(set(pff.values())) > 1:
             raise Violation('verdict:font-face-context-depends-on-origin', f'@font-face {name}: {value}: {ff}')
+        # a name that only looks like a known one after Unicode case folding is unknown (KELVIN SIGN for k, LONG S for s)
+        for a, b in (('k', '\u212a'), ('s', '\u017f'), ('K', '\u212a')):
+            if a in name:
+                odd = name.replace(a, b, 1)
+                got = {o: v for o, v in verdicts(odd, value, False).items() if v}
+                if got:
+                    raise Violation('verdict:unknown-name-valid', f'{odd!r}: {value} is reported valid: {got}')
+                break
         # unknown names
         if name not in cssutils.profile.knownNames and verdict:
             raise Violation('verdict:unknown-name-valid', f'{name}: {value}')
